@@ -46,7 +46,7 @@ prop('C03', ['K1', 'K3', 'K4', 'K5', 'K7', 'K8', 'M7', 'F1', 'F14', 'F7', 'F10',
      'The paths / accessors handed out by the flatten variants and those recomputed from the treespec come from producers that use the same entry per kind (N1, N2); every producer of nodes stores the same metadata shape (M1); the NoneIsLeaf / sort-mode variant taken equals the flag (K2).',
      ['equality of the produced lists for every input'])
 
-prop('C04', ['T5', 'N1', 'N2', 'N3', 'N4', 'N5', 'N6', 'F8', 'M4', 'K4', 'VG1'],
+prop('C04', ['T5', 'N1', 'N2', 'N3', 'N4', 'N5', 'N6', 'F8', 'M4', 'K4', 'VG1', 'N2w'],
      'Paths and accessors, structural part: the path entry class per kind agrees between the '
      'engine, the Python registry literal and accessor.py (T5); flatten-with-path, PathsImpl, '
      'AccessorsImpl, Entries and Entry use the same entry per kind (index / key from the list that '
@@ -96,7 +96,7 @@ prop('C07', ['P1', 'P2cxx', 'P2py', 'P3', 'P4', 'W1', 'H3', 'F12', 'F13', 'K3', 
      'flatten_up_to looks custom nodes up in the variant and namespace of the treespec (K2, NS1); prefix_errors walks with the one-level handlers of the Python registry (T4).',
      ['exactness over all pairs', 'offset arithmetic of the re-ordering branch'])
 
-prop('C08', ['I3', 'M5', 'M5b', 'M6', 'F9', 'F12', 'W3', 'T6', 'K1', 'K3', 'M7', 'M1', 'P5', 'K2', 'K4', 'M8', 'B1', 'N1', 'N2', 'VG2'],
+prop('C08', ['I3', 'M5', 'M5b', 'M6', 'F9', 'F12', 'W3', 'T6', 'K1', 'K3', 'M7', 'M1', 'P5', 'K2', 'K4', 'M8', 'B1', 'N1', 'N2', 'VG2', 'N2w'],
      'Inspection / constructors: entry(i)/child(i) range test and normalisation dominate all uses '
      'of the index (I3); every new treespec gets none_is_leaf and namespace from its source(s) and '
      'passes the sanity check before it escapes (M5, 14 creation sites); a treespec derived from '
@@ -213,7 +213,7 @@ prop('C19', ['DC1', 'DC2', 'DC3', 'DC4', 'DC5', 'G4', 'F8', 'CL1', 'VG1'],
      'class is processed by dataclasses.dataclass exactly once (DC5); eq/hash agreement (F8); the flatten / unflatten closures read no finished loop variable of the function that builds them (CL1).',
      ['all layouts and values', '__post_init__ behaviour'])
 
-prop('C20', ['R1', 'R2', 'R3', 'R4', 'F1', 'F14', 'CL1', 'VG1'],
+prop('C20', ['R1', 'R2', 'R3', 'R4', 'F1', 'F14', 'CL1', 'VG1', 'F8'],
      'Ravel: each partial binds exactly the leading parameters of its target (R1); shape guard and '
      '(mixed-dtype) dtype guard dominate the split, chunks/shapes/dtypes are joined by the strict '
      'zip (R2); the three backends have the same structure (R3); the numpy common dtype is '
